@@ -166,9 +166,11 @@ CHECKS = {
     ),
     "C14": dict(
         title="The server answers every two-way request exactly once with a well-formed reply",
-        legs=[leg("TestC14Replies", quick=(250, 4), thorough=(4000, 16), timeout_s=3000, prefixes=["c14."])],
+        legs=[leg("TestC14Replies", quick=(250, 4), thorough=(4000, 16), timeout_s=3000, prefixes=["c14."]),
+              # generated processors (the reply of a generated method is counted where the whole reply is at hand)
+              leg("TestBedC03", module="idl", quick=(500, 2), thorough=(5000, 8), timeout_s=3000, prefixes=["c03.", "bed."], env={"VERIF_BED_PROGRAMS": "6"})],
         level="exploration",
-        technique="property-based testing (rapid): generated request sequences of every kind sent by a raw client over the simple/HTTP/NATS servers and in memory, replies parsed by an independent decoder and matched to requests",
+        technique="property-based testing (rapid): generated request sequences of every kind sent by a raw client over the simple/HTTP/NATS servers and in memory, replies parsed by an independent decoder and matched to requests; generated processors of generated programs (bed leg): exactly one reply message per two-way call",
         rule=("Sequences of 1..30 requests of kinds ok / declared exception / undeclared error / TApplicationException(42) / unknown method / missing required argument / wrong wire type / oneway / truncated arguments, "
               "spread over 1..4 connections (simple server, sequential per connection, connections concurrent), 1..4 concurrent HTTP senders, 1..4 NATS publishers x 1..4 workers, or direct Process; binary/compact/JSON. "
               "Non-trivial: a success after a non-success on the same connection, or >=2 concurrent connections/workers. Distinct: sha256 of the case."),
